@@ -107,10 +107,12 @@ def to_script(case):
                 if op[0] == "flush":
                     lines.append("T%d flush" % t)
                 elif op[1] == "OHx":
-                    lines.append("T%d ev %s %d %s" % (t, rt.hx("OHx"), clk, T.P("iiQ", t, -1, 0)))
+                    lines.append("T%d ev %s now %s" % (t, rt.hx("OHx"), T.P("iiQ", t, -1, 0)))
                 else:
-                    pl = "ab" * (op[2] - 12)
-                    lines.append(("T%d ev %s %d %s" % (t, rt.hx(op[1]), clk, pl)).rstrip())
+                    # clocks from ovni_clock_now() (conformant); payload = sequence number
+                    n = op[2] - 12
+                    pl = (clk.to_bytes(8, "little") * 2)[:n].hex() if n else ""
+                    lines.append(("T%d ev %s now %s" % (t, rt.hx(op[1]), pl)).rstrip())
     for t in range(nth):
         lines.append("T%d free" % t)
     lines.append("P fini")
@@ -120,7 +122,7 @@ def to_script(case):
 def norm(data, nbytes):
     """decoded events of the first nbytes (must end on an event boundary), flush marker clocks masked"""
     evs = obs.decode_stream(data[:nbytes])
-    return [(e.mcv, None if e.mcv in ("OF[", "OF]") else e.clock, bytes(e.payload)) for e in evs]
+    return [(e.mcv, bytes(e.payload)) for e in evs]      # clocks come from ovni_clock_now(): masked
 
 
 def thread_dir(root, t):
@@ -206,5 +208,5 @@ def run(case, ctx):
 
 
 def parts(tier):
-    return [Part("crash-points", run, strategy=lambda ctx: programs(), budget={"quick": 64, "thorough": 1200},
+    return [Part("crash-points", run, strategy=lambda ctx: programs(), budget={"quick": 56, "thorough": 1200},
                  cap_s={"quick": 500, "thorough": 3400})]
